@@ -277,11 +277,15 @@ def star_tokenize(text):
             else:
                 if not cur["labels"]:
                     raise ValueError(f"line {ln}: loop without labels")
+                if "#" in stripped:
+                    raise ValueError(f"line {ln}: comment on a data row is outside the subset")
                 cur["rows"].append(stripped.split())
                 state = "rows"
         elif state == "after_labels":
             if ignorable:
                 continue
+            if "#" in stripped:
+                raise ValueError(f"line {ln}: comment on a data row is outside the subset")
             cur["rows"].append(stripped.split())
             state = "rows"
         elif state == "rows":
